@@ -23,4 +23,4 @@ echo "[$name] demo on clean tree : $demo_clean"
 echo "[$name] build with patch   : ${build:-ok}"
 echo "[$name] demo with patch    : $demo_mut"
 echo "[$name] suite with patch   : $suite"
-/verif/tools/try_mutant.sh "$out/patch.diff" "$@"
+[ -n "${SKIP_TRY:-}" ] || /verif/tools/try_mutant.sh "$out/patch.diff" "$@"
